@@ -4,6 +4,10 @@ import json, os
 ROOT = os.path.dirname(os.path.dirname(os.path.abspath(__file__)))
 TECH = "bounded symbolic execution of go/ssa + SMT (z3; cvc5 cross-check in thorough), native replay of counterexamples"
 claimed = {
+ "C05": dict(level="Bounded symbolic model checking of the real udp/client.Conn receive path (handleReq, per-ID lock, reply cache with the real expiring cache, processResponse, pooled messages, coder) over an in-memory session: a duplicate within the symbolic exchange lifetime never re-runs the handler and is answered with the same reply matched to its message ID; after the lifetime the ID is fresh; IDs colliding with the endpoint's own outgoing IDs are inside the domain.",
+             note="Trusted: gosym encoder (native witnesses with injected clock and schedule), z3/cvc5. Concurrent copies, separate responses and DTLS outside.", ref="DESIGN.md §4 C05"),
+ "C06": dict(level="Bounded symbolic model checking of the real retransmission machinery (prepareWriteMessage, midElement, CheckExpirations, handleSpecialMessages, NSTART semaphore) with time as a symbolic variable: number of copies, earliest instant of the k-th copy, byte-identity of copies, silence after ACK/RST/return, clean exhaustion; and a 2-thread harness deciding that the retransmission clock of a request queued behind NSTART starts at its first transmission.",
+             note="Trusted: gosym encoder and scheduler model (native witnesses with injected clock and forced schedule), z3/cvc5. Event-count and preemption bounds in evidence.", ref="DESIGN.md §4 C06"),
  "C07": dict(level="Bounded symbolic model checking of the real Session.processBuffer (with bytes.Buffer, pooled messages and the stream coder interpreted from source) in the inductive two-segment form: for every byte stream within the bound, every cut and every maximum message size, the deliveries, the buffered remainder and the error outcome of processing S[:c] then S[c:] equal those of processing S at once, and both equal a reference framer written from RFC 8323 §3.2 (oversize frames: error as soon as the header is complete, nothing of or after them delivered).",
              note="Trusted: gosym encoder (native witnesses), z3/cvc5, the harness reference framer. Stream length bound in evidence; Run's read loop covered by the induction argument only.", ref="DESIGN.md §4 C07"),
  "C11": dict(level="Context-bounded symbolic model checking of the real ReceivedMessageReader (loop, TryToReplaceLoop) with harness handlers that block on nested requests exactly as Conn.doInternal does: exactly-once processing, arrival order while handlers do not block, no stall (any state in which the pusher or a nested wait can never proceed is reported as deadlock) for every queue size and interleaving within the bounds; counterexample schedules and select choices are forced on the native build.",
